@@ -59,12 +59,37 @@ def regenerate():
     return errors
 
 
+# which properties' theorems are stated over which regenerated file (Props/Cxx.v imports it, or -- C12 -- the
+# descriptions the facts are read from are that property's own branch coverage): a translator that fails closed breaks
+# the tie for THESE properties only; the others neither use the file nor report it
+FACT_FILES = {"facts_cli": "CliFacts.v", "facts_rtl": "RtlFacts.v", "facts_manifest": "ManifestFacts.v", "facts_jobs": "JobsFacts.v"}
+FACT_USERS = {"facts_cli": ("C10", "C15"), "facts_rtl": ("C08", "C11", "C12"), "facts_manifest": ("C20",), "facts_jobs": ("C19",)}
+
+
+def errors_for(pid, errors):
+    """the regeneration errors that concern property pid (an error of an unknown generator concerns everybody)"""
+    out = []
+    for e in errors:
+        mod = e.split(".", 1)[0]
+        if mod not in FACT_USERS or pid in FACT_USERS[mod]:
+            out.append(e)
+    return out
+
+
 def _regenerate(gens):
     errors = []
     for g in gens:
+        mod = g.__module__.split(".")[-1]
         try:
             name, text = g()
             write_if_changed(os.path.join(common.COQ, "gen", name), text)
         except Exception as e:  # fail closed: an unreadable source breaks the tie, reported by the check
-            errors.append(f"{g.__name__}: {type(e).__name__}: {e}")
+            errors.append(f"{mod}.{g.__name__}: {type(e).__name__}: {e}")
+            # keep the rest of the development (and the model binary) buildable: without a file from an earlier run, fall
+            # back to the committed facts of the pinned tree; the properties stated over it report the broken tie anyway
+            tgt = os.path.join(common.COQ, "gen", FACT_FILES.get(mod, ""))
+            base = os.path.join(common.COQ, "gen_base", FACT_FILES.get(mod, ""))
+            if mod in FACT_FILES and not os.path.exists(tgt) and os.path.exists(base):
+                with open(base) as f:
+                    write_if_changed(tgt, f.read())
     return errors
